@@ -18,7 +18,7 @@ from checks import a2mlgen as g
 from checks import loadlib
 
 PROP = 'C18'
-TARGETS = ['theories/Proofs/IfdataProofs.v', 'theories/Run/RunLoad.v']
+TARGETS = ['theories/Proofs/IfdataProofs.v', 'theories/Proofs/IfdataCleanupProofs.v', 'theories/Run/RunLoad.v']
 
 # definitions the ASAM grammar allows and the library's A2ML parser rejects (known findings, one key each)
 REJECTED_DEFINITIONS = {
@@ -221,6 +221,28 @@ def check(tier, seed):
             d = loadlib.compare(r, m)
             if d is not None:
                 mism.append((i, d))
+    # the same documents through ifdata_cleanup(): text written afterwards, model against implementation
+    clean_mism = 0
+    if model_exe:
+        try:
+            clean_exe = fw.build_model('LOADCLEAN')
+            cl_impl = fw.run_sharded([impl, 'LOADCLEAN'], lines)
+            cl_lines = []
+            for (t, s_, sp, cyc), r in zip(tuples, res):
+                cl_lines.append(sx.enc([t, 1 if s_ else 0, [sp] if sp else [], 0, r.ftab if r.ftab is not None else [], r.a2ml[0], r.a2ml[1]]))
+            cl_model = fw.run_sharded([clean_exe], cl_lines)
+            for i, (a, b) in enumerate(zip(cl_impl, cl_model)):
+                if a is None or b is None or a.startswith('DIED') or b.startswith('DIED'):
+                    continue
+                x, y = sx.dec(a), sx.dec(b)
+                if x[0] == b'OK' and y[0] == b'OK' and x[1] != y[1]:
+                    clean_mism += 1
+                    mism.append((i, 'text written after ifdata_cleanup() differs between model and implementation'))
+                elif x[0] != y[0] and y[0] != b'UNSUPPORTED':
+                    clean_mism += 1
+                    mism.append((i, 'ifdata_cleanup: status %s vs %s' % (x[0], y[0])))
+        except fw.CheckFailure as e:
+            model_err = str(e)
     # ---- stage W
     answers = g.run_ifdata([c.tuple() for c in cases], binary=impl)
     failures = []
@@ -246,7 +268,7 @@ def check(tier, seed):
                  'deviations; definition in the file / built-in / both identical / both different; strict and non-strict; '
                  'non-trivial = distinct document'),
         'statistics': dict(stats),
-        'correspondence_mismatches': len(mism), 'traces_validated_against_impl': len(cases) - len(mism) if model_exe else 0,
+        'correspondence_mismatches': len(mism), 'cleanup_text_mismatches': clean_mism, 'traces_validated_against_impl': len(cases) - len(mism) if model_exe else 0,
         'implementation_answers': dict(collections.Counter(r.status for r in res)),
         'oracle_failures': len(failures), 'oracle_failure_classes': dict(collections.Counter(f[1] for f in failures)),
         'samples': [cases[0].text()[:700]] if cases else [],
